@@ -1035,6 +1035,7 @@ def mon_B(case, pid):
                     e = snap["store"].get(int(t[4]))
                     cs["present"][t[2]] = e is not None
                     cs["charge"][t[2]] = snap["kw"].get(e["id"], {}).get("weight") if e is not None else None
+                    cs.setdefault("id", {})[t[2]] = e["id"] if e is not None else None
             for piece in out.split(";"):
                 if ":panic " not in piece:
                     continue
@@ -1051,7 +1052,11 @@ def mon_B(case, pid):
                             continue    # documented precondition: the configured weight function returns a positive weight
                     if req[0] == "upsert" and req[5] == "1" and req[3] == "-" and req[2] == "-":
                         charge = cs["charge"].get(cid)
-                        if charge is not None and charge > case.cfg.get("ttlentry", 24):
+                        now_charged = snap["kw"].get(cs.get("id", {}).get(cid), {}).get("weight")
+                        if charge is not None and charge > case.cfg.get("ttlentry", 24) and now_charged is not None:
+                            # D4 reached through a race: another client's accepted UpdateWeight lowered the charge in the middle of the call
+                            yield finding("C17", st, f"put_or_update(remove_time_to_live) of key {req[1]}, charged {charge} when the call began, panicked in its caller: the charge had been lowered to {now_charged} by another client's weight update in the middle of the call ({now_charged} - 24 <= 0)", "C17/caller-panic/site=ttl-removal-weight/charge-lowered-during-call")
+                        elif charge is not None and charge > case.cfg.get("ttlentry", 24):
                             yield finding("C17", st, f"put_or_update(remove_time_to_live) of key {req[1]}, charged {charge} when the call began, panicked in its caller: the charge was read after another thread had taken the key id out of the ledger in the middle of the call (0 - 24 <= 0)", "C17/caller-panic/site=ttl-removal-weight/charge-removed-during-call")
                         else:
                             yield finding("C17", st, "removing the time-to-live of a light key panics in the caller (existing weight - 24 <= 0) after the store was changed", "C17/caller-panic/site=ttl-removal-weight")
